@@ -192,7 +192,16 @@ func processFile(filePath string, ctxt *processors.Context, checkOnly bool) erro
 		lines = append(lines, string(line))
 	}
 
-	if !checkStandardHeader(lines) {
+	if checkStandardHeader(lines) {
+		// Treat the header, including its trailing empty line, as a single element, as below.
+		// Otherwise the end of file formatting strips the empty line from a file that
+		// contains nothing but the header and the next run adds a second header.
+		lines = lines[2:]
+		if len(lines) > 0 && lines[0] == "" {
+			lines = lines[1:]
+		}
+		lines = append([]string{regexAssemblyStandardHeader}, lines...)
+	} else {
 		logger.Info().Msgf("file %s does not have standard header", filename)
 		// prepend the standard header
 		lines = append([]string{regexAssemblyStandardHeader}, lines...)
@@ -313,8 +322,10 @@ func formatEndOfFile(lines []string) []string {
 }
 
 func checkStandardHeader(lines []string) bool {
-	if len(lines) >= 3 &&
-		fmt.Sprintf("%s\n%s\n%s", lines[0], lines[1], lines[2]) == regexAssemblyStandardHeader {
+	// The header consists of two lines. The empty line that follows it is
+	// added by the formatter if it is missing.
+	if len(lines) >= 2 &&
+		fmt.Sprintf("%s\n%s\n", lines[0], lines[1]) == regexAssemblyStandardHeader {
 		return true
 	}
 	return false
